@@ -32,8 +32,14 @@ if mods:
         'LbzVerif.Props.C01.Prefix.assign_eq_canon',
         'LbzVerif.Props.C01.Transmit.parse_transmit',
         'LbzVerif.Props.C01.Transmit.len_mod8',
+        'LbzVerif.Props.C01.Roundtrip.block_roundtrip',
+        'LbzVerif.Props.C01.Roundtrip.roundtrip',
+        'LbzVerif.Props.C01.Roundtrip.roundtrip_gen',
+        'LbzVerif.Props.C01.Roundtrip.roundtrip_empty',
+        'LbzVerif.Props.C01.Roundtrip.assemble_sched',
+        'LbzVerif.Props.C01.Roundtrip.roundtrip_sched',
     ])
-inproc.run_libs(ck, ['w10_mtf', 'w11_prefix', 'w16_transmit'])
+inproc.run_libs(ck, ['w10_mtf', 'w11_prefix', 'w16_transmit', 'w23_roundtrip'])
 exe = ck.build_lbzip2(asan=False)
 evals = 0
 seen = set()
